@@ -102,3 +102,74 @@ R.loop(
     var_kinds={"default": "none|bool|int|real|str|list[str]", "name": "str"},
     fingerprint="option in self._fmt.get_options",
 )
+
+# ---- Args.set_option: what is stored is the value converted to the declared type, under the option's LONG name -----
+SET_OPTION = A + "set_option"
+LN = "%s._long_name" % O
+ONE_TYPE = "(bool(%s._flags & 128) + bool(%s._flags & 256) + bool(%s._flags & 512) + bool(%s._flags & 1024)) == 1" % (O, O, O, O)
+# (a) an option without a value: set means True, `False` un-sets it; nothing else changes
+R.contract(
+    SET_OPTION, variant="flag",
+    params={"name": "str", "value": "none|bool|int|str"},
+    returns="ref Args",
+    requires=["base_has_option(self._fmt, name)", "bool(%s._flags & 4)" % O],
+    ensures=[
+        "implies(value is False, %s not in self._options)" % LN,
+        "implies(value is not False, %s in self._options and self._options[%s] == True)" % (LN, LN),
+        "same_except(self._options, %s)" % LN,
+        "result is self",
+    ],
+    raises={"NoSuchOptionException": "False"},
+    modifies=["items(self._options)"],
+)
+R.contracts[SET_OPTION + "#flag"].defaults = {"value": True}
+# (b) a single-valued option with a value: the stored value has the declared type (or is None for a nullable option given
+#     None / 'null'); a value that cannot be converted raises ValueError and stores nothing
+R.contract(
+    SET_OPTION, variant="scalar",
+    params={"name": "str", "value": "none|bool|int|real|str"},
+    returns="ref Args",
+    requires=["base_has_option(self._fmt, name)", "not (%s._flags & 4) and not (%s._flags & 32)" % (O, O), ONE_TYPE],
+    ensures=[
+        "%s in self._options" % LN,
+        "implies(self._options[%s] is None, bool(%s._flags & 2048) and (value is None or value == 'null'))" % (LN, O),
+        "implies(bool(%s._flags & 128), self._options[%s] is None or isinstance(self._options[%s], str))" % (O, LN, LN),
+        "implies(bool(%s._flags & 256), self._options[%s] is None or isinstance(self._options[%s], bool))" % (O, LN, LN),
+        "implies(bool(%s._flags & 512), self._options[%s] is None or (isinstance(self._options[%s], int) and "
+        "not isinstance(self._options[%s], bool)))" % (O, LN, LN, LN),
+        "implies(bool(%s._flags & 1024), self._options[%s] is None or isinstance(self._options[%s], float))" % (O, LN, LN),
+        "same_except(self._options, %s)" % LN,
+        "result is self",
+    ],
+    raises={"ValueError": "not (%s._flags & 128)" % O},
+    raises_modifies=[],
+    modifies=["items(self._options)"],
+)
+SET_OPTION_TARGETS = [{"qual": SET_OPTION, "tag": "flag"}, {"qual": SET_OPTION, "tag": "scalar"}]
+
+# ---- Args.set_argument (single-valued): the converted value is stored under the argument's NAME, by name or by position --
+SET_ARGUMENT = A + "set_argument"
+AN = "%s._name" % ARG
+ONE_TYPE_A = "(bool(%s._flags & 16) + bool(%s._flags & 32) + bool(%s._flags & 64) + bool(%s._flags & 128)) == 1" % (ARG, ARG, ARG, ARG)
+EXISTS_A = "((isinstance(name, str) and base_has_argument(self._fmt, name)) or (isinstance(name, int) and fmt_has_arg_pos(self._fmt, name)))"
+R.contract(
+    SET_ARGUMENT, variant="scalar",
+    params={"name": "str|int", "value": "none|bool|int|real|str"},
+    returns="ref Args",
+    requires=[EXISTS_A, "not (%s._flags & 4)" % ARG, ONE_TYPE_A],
+    ensures=[
+        "%s in self._arguments" % AN,
+        "implies(self._arguments[%s] is None, bool(%s._flags & 256) and (value is None or value == 'null'))" % (AN, ARG),
+        "implies(bool(%s._flags & 16), self._arguments[%s] is None or isinstance(self._arguments[%s], str))" % (ARG, AN, AN),
+        "implies(bool(%s._flags & 32), self._arguments[%s] is None or isinstance(self._arguments[%s], bool))" % (ARG, AN, AN),
+        "implies(bool(%s._flags & 64), self._arguments[%s] is None or (isinstance(self._arguments[%s], int) and "
+        "not isinstance(self._arguments[%s], bool)))" % (ARG, AN, AN, AN),
+        "implies(bool(%s._flags & 128), self._arguments[%s] is None or isinstance(self._arguments[%s], float))" % (ARG, AN, AN),
+        "same_except(self._arguments, %s)" % AN,
+        "result is self",
+    ],
+    raises={"ValueError": "not (%s._flags & 16)" % ARG},
+    raises_modifies=[],
+    modifies=["items(self._arguments)"],
+)
+SET_OPTION_TARGETS.append({"qual": SET_ARGUMENT, "tag": "scalar"})
